@@ -102,8 +102,8 @@ def pCastExpression (self : Self) : P Val := do
   match ← self .tryParenTypeName with
   | some (typ, m, lp) =>
     if (← peekType) == some "LBRACE" then
-      reset m
-      self .unaryExpression
+      let _ := m
+      self (.postfixExpression (some typ))
     else
       let expr ← self .castExpression
       pure (mk .Cast (some (← tokCoord lp)) [typ, expr])
@@ -123,7 +123,11 @@ def pUnaryExpression (self : Self) : P Val := do
   else if k == some "SIZEOF" then
     let tok ← advance
     match ← self .tryParenTypeName with
-    | some (typ, _, _) => pure (mk .UnaryOp (some (← tokCoord tok)) [.str tok.val, typ])
+    | some (typ, _, _) =>
+      if (← peekType) == some "LBRACE" then
+        let expr ← self (.postfixExpression (some typ))
+        pure (mk .UnaryOp (some (← tokCoord tok)) [.str tok.val, expr])
+      else pure (mk .UnaryOp (some (← tokCoord tok)) [.str tok.val, typ])
     | none =>
       let expr ← self .unaryExpression
       pure (mk .UnaryOp (some (← tokCoord tok)) [.str tok.val, expr])
@@ -133,23 +137,29 @@ def pUnaryExpression (self : Self) : P Val := do
     let typ ← self .typeName
     let _ ← expect "RPAREN"
     pure (mk .UnaryOp (some (← tokCoord tok)) [.str tok.val, typ])
-  else self .postfixExpression
+  else self (.postfixExpression none)
 
 /-- `_parse_postfix_expression` -/
-def pPostfixExpression (self : Self) : P Val := do
-  let go : P Val := do
+def pPostfixExpression (self : Self) (compoundType : Option Val) : P Val := do
+  let typ : Option Val ← (do
+    match compoundType with
+    | some t => pure (some t)
+    | none =>
+      match ← self .tryParenTypeName with
+      | some (t, m, _) =>
+        if (← peekType) == some "LBRACE" then pure (some t)
+        else do reset m; pure none
+      | none => pure none)
+  match typ with
+  | some t =>
+    let _ ← expect "LBRACE"
+    let init ← self .initializerList
+    let _ ← accept "COMMA"
+    let _ ← expect "RBRACE"
+    self (.postfixLoop (mk .CompoundLiteral none [t, init]))
+  | none =>
     let e ← self .primaryExpression
     self (.postfixLoop e)
-  match ← self .tryParenTypeName with
-  | some (typ, m, _) =>
-    match ← accept "LBRACE" with
-    | some _ =>
-      let init ← self .initializerList
-      let _ ← accept "COMMA"
-      let _ ← expect "RBRACE"
-      pure (mk .CompoundLiteral none [typ, init])
-    | none => reset m; go
-  | none => go
 
 def pPostfixLoop (self : Self) (expr : Val) : P Val := do
   if (← accept "LBRACKET").isSome then
